@@ -11,6 +11,9 @@ CONSTANTS
   EraseKeepsBug = FALSE
   PushFrontRetBug = FALSE
   ReleaseNoClear = FALSE
+  LogDupBug = FALSE
+  LogSetShallowBug = FALSE
+  LeakTempBug = FALSE
   MoveAssignInPlaceBug = TRUE
 VIEW IView
 INVARIANTS NoDangling
